@@ -8,6 +8,7 @@ import (
 	"github.com/goatcms/goatcore/filesystem"
 	"github.com/goatcms/goatcore/varutil"
 	"github.com/goatcms/goatcore/varutil/goaterr"
+	"github.com/goatcms/goatcore/varutil/verifhook"
 )
 
 const (
@@ -170,10 +171,12 @@ func (fs *Filespace) Writer(destPath string) (writer filesystem.Writer, err erro
 	dir.Lock()
 	defer dir.Unlock()
 	if node, err = dir.getNode(destNodeName); err != nil {
+		verifhook.Yield("memfs.create.gap")
 		file = NewFile(destNodeName, filesystem.DefaultUnixFileMode, time.Now(), []byte{})
 		if err = dir.addNode(file); err != nil {
 			return nil, err
 		}
+		verifhook.Yield("memfs.writer.created")
 	} else {
 		if file, ok = node.(*File); !ok {
 			return nil, goaterr.Errorf("Node %s must be a file", destPath)
@@ -226,6 +229,7 @@ func (fs *Filespace) WriteFile(destPath string, data []byte, filemode os.FileMod
 	dir.Lock()
 	defer dir.Unlock()
 	if node, err = dir.getNode(destNodeName); err != nil {
+		verifhook.Yield("memfs.create.gap")
 		file = NewFile(destNodeName, filesystem.DefaultUnixFileMode, time.Now(), nil)
 		file.setData(data)
 		return dir.addNode(file)
